@@ -84,7 +84,7 @@ class AxisReduction:
             img_arr = np.sum(img.img, axis=self.index)
 
             if self.mode == "average":
-                img_arr /= img.img.shape[self.index]
+                img_arr = img_arr / img.img.shape[self.index]
             elif self.mode == "sum":
                 pass
         elif self.mode == "slice":
